@@ -36,8 +36,8 @@ tree after the `name` callback, handed on by `toR`).  Theorems quantify over ALL
   **text level**: `bench_text_roundtrip`, `verilog_text_roundtrip` — `parse (print x) = some x` for every statement list /
   module list whose names can be written (decidable `validStmt` / `validModule`); `bench_text_layout_irrelevant`,
   `verilog_text_layout_irrelevant` — the same for EVERY layout of the token stream (any ignorable text in front and behind each
-  token: blanks, line breaks, comments of every kind, attributes; decidable `layoutOK`), corollary
-  `bench_text_between_statements`; `bench_text_to_netlist`, `verilog_text_to_netlist` — the circuit model (1) builds from model
+  token: blanks, line breaks, comments of every kind, attributes; decidable `layoutOK`), corollaries
+  `bench_text_between_statements`, `bench_text_trailing_comment`; `bench_text_to_netlist`, `verilog_text_to_netlist` — the circuit model (1) builds from model
   (2)'s reading of the printed text is the circuit of the statement list, which puts all theorems of (1) behind the text.
   NOT a theorem: the converse (every accepted text is a layout of a token stream) and anything about rejected texts.
 * **Correspondence** (harness/c11.py, differential, not proof): (1) == real `verilog.parse` / `bench.parse` on generated
@@ -586,6 +586,17 @@ theorem bench_text_between_statements (sg : List (BStmt × List Char)) (hv : (sg
     parseBench (String.ofList (g0 ++ renderTG (benchTGWith sg))) = some (sg.map (·.1)) :=
   bench_text_layout_irrelevant (sg.map (·.1)) hv g0 (benchTGWith sg) (benchTGWith_toks sg) hg0
     (layout_benchWith sg (by simpa using hg))
+
+/-- the only other thing lark ignores: a `#` comment at the very end of the text that is NOT closed by a line break
+(`tailOK`) — behind any layout it does not change the result either -/
+theorem bench_text_trailing_comment (stmts : List BStmt) (hv : stmts.all validStmt = true) (g0 tail : List Char)
+    (l : List (Tok × List Char)) (hl : l.map (·.1) = benchToks stmts) (hg0 : gapB .ws g0 = true) (hlay : layoutOK l = true)
+    (ht : tailOK tail = true) : parseBench (String.ofList (g0 ++ (renderTG l ++ tail))) = some stmts := by
+  simp only [parseBench, String.toList_ofList]
+  exact parse_layout_tail stmts (by simpa using hv) g0 tail l hl hg0 hlay ht
+
+example : tailOK "# last line, no line break".toList = true ∧ tailOK "#a\r".toList = true ∧ tailOK "#a\nINPUT(x)".toList = false := by
+  decide +kernel
 
 /-- the hypotheses are satisfiable; the printed text -/
 example : [BStmt.intf ["a", "b"], .intf ["z"], .gate "z" "NAND" ["n-1", "a"], .gate "n-1" "not" ["b"], .gate "K" "__const1__" []].all
